@@ -47,8 +47,9 @@ def u16(I, B, p):
 
 
 @_native
-def taddr(I, B, p):
-    return _uf('Dwarf_target_addr')(B.arr, to_int(p))
+def taddr(I, B, p, W):
+    from specs.k1_layouts import dwarf_word
+    return dwarf_word(B.arr, to_int(p), to_int(W))
 
 
 def is_special(h, B, o):
@@ -80,12 +81,12 @@ def advances(h, B, o):
     return is_special(h, B, o) or std(h, B, o, LNS_advance_pc) or std(h, B, o, LNS_const_add_pc)
 
 
-def row_address(h, r, B, o):
+def row_address(h, r, B, o, W):
     """address register after the instruction's own update (value recorded in an emitted row)"""
     return (r.address + h.minimum_instruction_length * ((r.op_index + advance(h, B, o)) // h.maximum_operations_per_instruction)
             if advances(h, B, o) else
             r.address + u16(B, o + 1) if std(h, B, o, LNS_fixed_advance_pc) else
-            taddr(B, UE(B, o + 1) + 1) if (is_ext(h, B, o) and exop(B, o) == LNE_set_address) else
+            taddr(B, UE(B, o + 1) + 1, W) if (is_ext(h, B, o) and exop(B, o) == LNE_set_address) else
             r.address)
 
 
@@ -109,8 +110,8 @@ def ends(h, B, o):
     return is_ext(h, B, o) and exop(B, o) == LNE_end_sequence
 
 
-def next_address(h, r, B, o):
-    return 0 if ends(h, B, o) else row_address(h, r, B, o)
+def next_address(h, r, B, o, W):
+    return 0 if ends(h, B, o) else row_address(h, r, B, o, W)
 
 
 def next_op_index(h, r, B, o):
